@@ -23,6 +23,9 @@
 (* with the same predicates the trace findings use.                        *)
 (***************************************************************************)
 EXTENDS Integers, Sequences, TLC
+\* FALSE: Context::powi with a negative exponent drops the flag of the intermediate power with `.value()`
+\* (the code as it is: finding F32c); TRUE: the flag is chained with and_then (fixes/F32c-C11.patch)
+CONSTANT PowiNegKeepsFlag
 
 Ops == {"exp", "exp_m1", "ln", "ln_1p", "powi", "powf"}
 (* argument classes: x <= -1 | -1 < x <= -1/B | -1/B < x < 0 | 0 | 0 < x < 1/B | 1/B <= x < 1 | 1 |
@@ -187,10 +190,11 @@ SpecialsRight == (Done /\ plim /\ InDomain(op, xc, ec) /\ SpecialVal # "none") =
 OtherwiseEvaluated == (Done /\ plim /\ InDomain(op, xc, ec) /\ SpecialVal = "none") => ret.kind \in {"series", "product", "quotient"}
 \* a result that can be flagged Exact is exact
 \* (a rounded argument and a product of rounded squarings carry the conjunction of their step flags: truthful)
-ExactFlagTruthful == (Done /\ InDomain(op, xc, ec) /\ ret.flag \in {"Exact", "Maybe"}) => (ret.exact \/ ret.kind \in {"rounded-arg", "product"})
+ExactFlagTruthful == (Done /\ InDomain(op, xc, ec) /\ ret.flag \in {"Exact", "Maybe"})
+                        => (ret.exact \/ ret.kind \in {"rounded-arg", "product"} \/ (PowiNegKeepsFlag /\ ret.kind = "quotient"))
 \* F32b: the flag of a series result is the flag of its last rounding
 Known_F32b == Done /\ ret.kind = "series" /\ ret.flag = "Maybe"
 \* F32c: Context::powi with a negative exponent drops the flag of the intermediate power
-Known_F32c == Done /\ op = "powi" /\ ret.kind = "quotient" /\ ret.flag = "Maybe"
+Known_F32c == ~PowiNegKeepsFlag /\ Done /\ op = "powi" /\ ret.kind = "quotient" /\ ret.flag = "Maybe"
 ExactFlagOrKnown == ExactFlagTruthful \/ Known_F32b \/ Known_F32c
 =============================================================================
